@@ -99,6 +99,7 @@ func (w *vWorld) afterFailure(tag string, allocs []Allocation, before worldSnap)
 //	0: single block allocation   1: persistently mapped allocation (non-coherent type)   2: dedicated allocation
 //	3: multi-allocation of 3     4: dedicated multi-allocation of 3, mapped              5: pool creation with 2 minimum blocks
 //	6: CreateBuffer (create, allocate, bind)
+//	7: Map of an allocation after 0..6 preceding map/unmap events (covers the call on which the mapping hysteresis flips)
 func Verif_C10_Faults(cfg int) {
 	w := newWorld(10, cfg%32)
 	op := cfg / 32
@@ -110,6 +111,10 @@ func Verif_C10_Faults(cfg int) {
 	budget := 1
 	if verifTier() == 1 || op >= 3 {
 		budget = 2
+	}
+	if op == 7 {
+		w.mapFaultScenario()
+		return
 	}
 	w.dev.faults, w.dev.faultsLeft = true, budget
 	before := w.snap()
@@ -214,5 +219,55 @@ func Verif_C10_Faults(cfg int) {
 		w.oracleC02("C10/op/invariants-after-success")
 		verifAssert("C10/op/no-invalid-driver-call", len(w.dev.vu) == 0)
 	}
+	verifReach("end")
+}
+
+// mapFaultScenario: k map/unmap pairs, then a Map whose vkMapMemory may fail. A failed Map must leave the allocation
+// mappable: the next (fault-free) Map succeeds and returns the right pointer, and the driver was never asked to map
+// mapped memory or unmap unmapped memory.
+func (w *vWorld) mapFaultScenario() {
+	mw := &mapWorld{vWorld: w, ghostMaps: map[*simMem]int{}}
+	a := mw.allocFixed(tHostCoh, 64)
+	if a == nil {
+		return
+	}
+	pairs := verifChoice("mapUnmapPairsBefore", 4)
+	for i := 0; i < pairs; i++ {
+		if mw.mapIt(a) {
+			mw.unmapIt(a)
+		}
+	}
+	w.dev.faults, w.dev.faultsLeft = true, 1
+	var err error
+	p := verifCatch(func() { _, _, err = a.a.Map() })
+	verifAssert("C10/map/failing-map-returns-an-error-not-a-panic", !p)
+	if p {
+		return
+	}
+	w.dev.faults = false
+	if err == nil {
+		verifAssert("C10/map/unmap-after-successful-map", a.a.Unmap() == nil)
+		verifReach("operation-succeeded")
+	} else {
+		verifReach("operation-failed")
+		var ptr uintptr
+		var err2 error
+		p = verifCatch(func() {
+			up, _, e := a.a.Map()
+			ptr, err2 = uintptr(up), e
+		})
+		ok := verifAnd(!p, err2 == nil)
+		if !p && err2 == nil {
+			m := w.dev.memOf(a.a.Memory())
+			ok = verifAnd(ok, m != nil && m.mapped)
+			if m != nil {
+				ok = verifAnd(ok, ptr == uintptr(m.base+a.a.FindOffset()))
+			}
+			ok = verifAnd(ok, a.a.Unmap() == nil)
+		}
+		verifAssert("C10/map/allocation-still-mappable-after-a-failed-map", ok)
+	}
+	verifAssert("C10/map/no-invalid-driver-call", len(w.dev.vu) == 0)
+	w.oracleC04("C10/map/after")
 	verifReach("end")
 }
